@@ -828,7 +828,7 @@ func cmdSessions(prop string, args []string) int {
 			return 2
 		}
 		n := c.Nodes[1]
-		rounds := 6
+		rounds := 24
 		if cf.tier == "thorough" {
 			rounds = 60
 		}
